@@ -41,6 +41,9 @@ type SpecEnv struct {
 	prevVars  map[string]TV // variables at the head of the current iteration
 }
 
+// specDepth > 0 while contract expressions are evaluated (ghost reads are not program accesses)
+var specDepth int
+
 type specErr struct{ msg string }
 
 func sfail(format string, a ...interface{}) { panic(specErr{fmt.Sprintf(format, a...)}) }
@@ -58,6 +61,8 @@ func (e *SpecEnv) with(name string, v TV) *SpecEnv {
 func boolTV(t *Term) TV { return TV{V: t, T: tBool} }
 
 func (e *SpecEnv) EvalBool(n *Node) (t *Term, err error) {
+	specDepth++
+	defer func() { specDepth-- }()
 	defer func() {
 		if r := recover(); r != nil {
 			if se, ok := r.(specErr); ok {
